@@ -182,3 +182,45 @@ Proof. vm_compute. reflexivity. Qed.
 Example ex_reject_bad_signature :
   parse_update (fun k m s => negb (bytes_eqb k (ex_key 53))) false (encode_update ex_good) = Err.
 Proof. vm_compute. reflexivity. Qed.
+
+(* ---- FINDING: "unique keys" read over every key field does not hold --------------------
+   The uniqueness filter stores all four keys of each entry but only looks up
+   the two SPEND keys of the entry being added.  A spend key equal to a view
+   key of an EARLIER entry is refused; the same reuse with the view key in the
+   entry itself or in a LATER entry is accepted.  Witness below (entry 3's
+   custodian spend key is entry 7's payee view key); on real code: harness
+   corpus cases cross/ps=cv/src-later, cross/cs=pv/src-later, cross/ps=own-cv
+   (known_findings.txt, sig accept-spend-key-equals-later-view-key).
+   C34_accept_implies is unaffected: it claims distinct SPEND keys. *)
+Definition with_payee_view (f : node_fields) (pv : bytes) : node_fields :=
+  {| f_cust := f_cust f; f_payee := (fst (f_payee f), pv); f_node_id := f_node_id f;
+     f_signer_sig := f_signer_sig f; f_payee_sig := f_payee_sig f; f_cust_sig := f_cust_sig f |}.
+Definition ex_update_of (fs : list node_fields) : update :=
+  {| u_cust := (ex_key 200, ex_key 201); u_nodes := map cnode_of_fields fs; u_sig := repeat 9%N 64 |}.
+Definition ex_view_later : update :=
+  ex_update_of [ex_fields 1; ex_fields 2; ex_fields 3; ex_fields 4; ex_fields 5; ex_fields 6;
+                with_payee_view (ex_fields 7) (ex_key 3)]%N.
+Definition ex_view_earlier : update :=
+  ex_update_of [with_payee_view (ex_fields 1) (ex_key 3); ex_fields 2; ex_fields 3; ex_fields 4;
+                ex_fields 5; ex_fields 6; ex_fields 7]%N.
+
+Theorem C34_all_keys_unique_refuted :
+  exists verify tx extra store u n m,
+    validate_update verify tx extra store = Ok tt /\ extra = encode_update u /\
+    In n (u_nodes u) /\ In m (u_nodes u) /\ n <> m /\
+    cn_cust_spend n = cn_payee_view m.
+Proof.
+  exists ex_verify, (ex_tx (700 * 10 ^ 8)), (encode_update ex_view_later),
+         (StoreSome {| p_cust := (ex_key 250, ex_key 251); p_nodes := [] |}), ex_view_later,
+         (cnode_of_fields (ex_fields 3)), (cnode_of_fields (with_payee_view (ex_fields 7) (ex_key 3))).
+  split; [vm_compute; reflexivity|]. split; [reflexivity|].
+  split; [right; right; left; reflexivity|].
+  split; [do 6 right; left; reflexivity|].
+  split; [|reflexivity].
+  intro H. apply (f_equal cn_cust_spend) in H. vm_compute in H. discriminate.
+Qed.
+Print Assumptions C34_all_keys_unique_refuted.
+
+(* the mirror image - the view key sits in an earlier entry - is refused *)
+Example ex_view_earlier_rejected : parse_update yes false (encode_update ex_view_earlier) = Err.
+Proof. vm_compute. reflexivity. Qed.
